@@ -67,7 +67,13 @@ BS0 = ["DUP1 AND", "PUSH 0 ADD", "PUSH 1 MUL", "PUSH 0 MLOAD PUSH 0 MSTORE", "PU
        "MSTORE8 POP", "MSTORE POP", "SSTORE POP", "POP MSTORE8",
        # a load through a pushed address, a store that conflicts with it, a store through the loaded value: the order
        # tuples of the l_vars memory encoding interact (seven instructions: run whatever the length limit of the tier)
-       "PUSH 40 MLOAD SWAP1 PUSH 40 MSTORE DUP1 MSTORE", "PUSH 0 SLOAD SWAP1 PUSH 0 SSTORE DUP1 SSTORE"]
+       "PUSH 40 MLOAD SWAP1 PUSH 40 MSTORE DUP1 MSTORE", "PUSH 0 SLOAD SWAP1 PUSH 0 SSTORE DUP1 SSTORE",
+       # a store whose operands are pushed, without and with slack in the length bound (a store listed before a value-producing
+       # instruction: the numbering of terms and of the empty-cell marker of the int term encoding)
+       "PUSH 7 PUSH 5 SSTORE", "DUP1 POP PUSH 7 PUSH 5 SSTORE", "PUSH 7 PUSH 5 MSTORE DUP1 POP",
+       # a load whose result reaches a later store of the same domain through another instruction, all operands from the
+       # incoming stack: lower position bounds along order tuples, tight length bound and one step of slack
+       "SLOAD ADD PUSH 7 SSTORE", "SLOAD ADD PUSH 7 SSTORE DUP1 POP", "MLOAD ADD PUSH 7 MSTORE"]
 
 
 def small_blocks(tier, seed):
